@@ -499,26 +499,37 @@ Definition reads_ok (i : input) (o : obs) : bool :=
     | _ => false
     end) (o_reads o).
 
-(* the directory holds only complete keys of writers and names that cannot be keys;
-   temporary names reported by the hook cannot be keys *)
+(* the temporary names the hook reported: never key-shaped, inside the cache root
+   (reported relative to it: no '/'), pairwise distinct among the writers of a case *)
+Fixpoint distinct_str (l : list string) : bool :=
+  match l with
+  | [] => true
+  | x :: l' => negb (existsb (String.eqb x) l') && distinct_str l'
+  end.
+Definition tmps_ok (i : input) : bool :=
+  forallb (fun wt : N * string => negb (keyshape (snd wt)) && negb (contains_byte "/" (snd wt))) (i_tmps i)
+  && distinct_str (map snd (i_tmps i)).
+
+(* the directory holds only complete keys of writers and names that cannot be keys *)
 Definition listing_ok (i : input) (o : obs) : bool :=
   forallb (fun nt : string * string =>
     if keyshape (fst nt)
     then existsb (fun w => String.eqb (wkey i (fst w)) (fst nt) && String.eqb (wbundle i (fst w)) (snd nt)) (i_writers i)
     else true) (o_dir o)
-  && forallb (fun wt : N * string => negb (keyshape (snd wt))) (i_tmps i).
+  && tmps_ok i.
 
 Definition spec_ok (i : input) (o : obs) : bool :=
   reads_ok i o && fresh_ok i o && listing_ok i o.
 
 (* input contract of the case model: a hook-driven schedule that is not stuck
    (the temporary names given by the oracle are admissible results of
-   os.CreateTemp: of the pattern's form and fresh; reader ids are used once) *)
+   os.CreateTemp in the cache root: of the pattern's form and fresh when used, else
+   the run is stuck; not key-shaped, relative, distinct; reader ids are used once) *)
 Definition wf (i : input) : bool :=
   negb (i_free i)
   && match mgo i init (i_sched i) with Some _ => true | None => false end
   && forallb (fun e => match e with SW _ | SR _ _ => true | _ => false end) (i_sched i)
-  && forallb (fun wt : N * string => is_temp (snd wt)) (i_tmps i).
+  && tmps_ok i.
 
 (* ---------- cases ---------- *)
 Record case := mk_case { c_id : N; c_in : input; c_obs : obs }.
